@@ -89,7 +89,7 @@ def main():
         }],
         "checks": checks,
         "not_applicable": na,
-        "notes": "Exit codes: 0 held (possibly with KNOWN-FINDING lines), 1 unlisted violation (VIOLATION line + replay), 2 harness problem (never a pass). See DESIGN.md.",
+        "notes": "Exit codes: 0 held (possibly with KNOWN-FINDING lines), 1 unlisted violation (VIOLATION line + replay), 2 harness problem (never a pass). Every check also executes the pinned scenarios of known_findings.json and the regression scenarios under regressions/<id>/. ./check replay <file> re-runs a replay file; ./check selftest light|full checks determinism; ./check sensitivity runs the checks against seeded/ (97 entries: property-breaking changes must be reported, correct refactorings must pass quietly). See DESIGN.md section 9.",
     }
     with open(os.path.join(ROOT, "MANIFEST.json"), "w") as f:
         json.dump(man, f, indent=1)
